@@ -58,7 +58,9 @@ AWKWARD_COLS = ['select', 'from', 'order', 'group by', 'a b', 'é', '中', 'Mixe
                 # distinct for SQLite, equal under Python's lower()
                 'É', 'Ünit', 'ünit',
                 # a leading '#' marks a comment only among constraint kinds
-                '#', '#lines', '# of rows']
+                '#', '#lines', '# of rows',
+                # names a query might use for its own purposes
+                'pattern', 'rexes', 'val', 'x', 'n']
 
 
 def text_values():
@@ -379,16 +381,25 @@ def run_history(case, ctx, out, desc, path, tdda_path, held):
                 continue
             row = [None] * len(names)
             row[names.index(c['name'])] = val
-            con = sqlite3.connect(path)
+            # (with a held connection, every other history adds the row
+            # through that very connection and does not commit it)
+            own = held is not None and desc['n'] % 2 == 0
+            con = held.connection if own else sqlite3.connect(path)
             try:
                 con.execute('INSERT INTO t VALUES (%s)'
                             % ', '.join('?' for _ in names), row)
-                con.commit()
+                if not own:
+                    con.commit()
             except sqlite3.IntegrityError:
                 out.label('database-refuses-the-row')
-                con.close()
+                if not own:
+                    con.close()
                 continue
-            con.close()
+            if own:
+                out.label('history:row-added-uncommitted-on-the-same-'
+                          'connection')
+            else:
+                con.close()
             applied += 1
             out.label('perturb:' + kind)
             ok, v = S.verify(path, tdda_path, db=held)
@@ -406,11 +417,12 @@ def run_history(case, ctx, out, desc, path, tdda_path, held):
                                 'still reports it satisfied'
                                 % (c['name'], val, kind, cvalue, c['decl'],
                                    c['cells'][:10]))
-            con = sqlite3.connect(path)
+            con = held.connection if own else sqlite3.connect(path)
             con.execute('DELETE FROM t WHERE rowid = (SELECT MAX(rowid) '
                         'FROM t)')
             con.commit()
-            con.close()
+            if not own:
+                con.close()
     if applied:
         closure('closure after insert/delete history')
     out.nontrivial = nonnull and applied > 0
